@@ -5,7 +5,7 @@ F = 'fiddle/_src/absl_flags/flags.py'
 P = 'fiddle/_src/printing.py'
 CASES = [
     dict(id='c18-revert-empty-key-fix', prop='C18', file=X, expect='violation',
-         edits=[("""            r"\\[(?P<key>\\d+|'[^']*'|\\"[^\\"]*\\")\\]",""", """            r"\\[(?P<key>\\d+|'[^']+'|\\"[^\\"]+\\")\\]",""")]),
+         edits=[("""            r"\\[(?P<key>-?\\d+|'[^']*'|\\"[^\\"]*\\")\\]",""", """            r"\\[(?P<key>-?\\d+|'[^']+'|\\"[^\\"]+\\")\\]",""")]),
     dict(id='c18-key-printed-with-str', prop='C18', file=D, expect='violation',
          edits=[('    return f"[{self.key!r}]"', '    return f"[{self.key!s}]"')]),
     dict(id='c18-index-printed-in-parens', prop='C18', file=D, expect='violation',
@@ -36,7 +36,7 @@ CASES = [
          edits=[("    if not _has_nested_builder(value):\n      yield _LeafSetting(state.current_path, None, value)", "    if not _has_nested_builder(value):\n      yield _LeafSetting(state.current_path[:-1], None, value)")]),
     # benign
     dict(id='c18-benign-parser-more-permissive', prop='C18', file=X, expect='silent',
-         edits=[("""            r"\\[(?P<key>\\d+|'[^']*'|\\"[^\\"]*\\")\\]",""", """            r"\\[(?P<key>-?\\d+|'[^']*'|\\"[^\\"]*\\")\\]",""")]),
+         edits=[("""            r"\\[(?P<key>-?\\d+|'[^']*'|\\"[^\\"]*\\")\\]",""", """            r"\\[(?P<key>[-+]?\\d+|'[^']*'|\\"[^\\"]*\\")\\]",""")]),
     dict(id='c18-benign-code-concat', prop='C18', file=D, expect='silent',
          edits=[('    return f".{self.name}"', '    return f".{self.name}" f""')]),
 ]
